@@ -139,12 +139,14 @@ def jobs_C01(tier, seed):
                 scns.append(inline(scn([tr], seed=seed, rcc=rcc)))
     jobs.append({'name': 'part checksums', 'scns': scns, 'bound': 0, 'want': want})
     # (2) body protocol: client-level retries cutting the body anywhere, short reads
-    for rcc in ('when_required', 'when_supported'):
+    for rcc in ('when_required', 'when_supported', 'when_supported/http'):
         for src, size in (('path', 5), ('seekable', 5), ('nonseekable', 5), ('path', 3), ('nonseekable', 3)):
             for brs in (None, 1, 2):
-                s = inline(scn([T_up(src, size, start=1 if src == 'seekable' else 0)], seed=seed, rcc=rcc,
+                s = inline(scn([T_up(src, size, start=1 if src == 'seekable' else 0)], seed=seed, rcc=rcc.split('/')[0],
                                body_read_size=brs,
                                faults={'sites': ['body:retry'], 'max_body_retries': 2}))
+                if rcc.endswith('/http'):
+                    s['endpoint'] = 'http'
                 jobs.append(job(f'body-retry {src} size={size} rcc={rcc} read={brs}', s,
                                 1 if tier == 'quick' else 2, want))
     # (3) schedules
@@ -444,13 +446,15 @@ def jobs_C09(tier, seed):
     want = 'C09'
     jobs = []
     # uploads x rewinds (both protocols), downloads x stream faults, copies; all sizes small
-    for rcc in ('when_required', 'when_supported'):
+    for rcc in ('when_required', 'when_supported', 'when_supported/http'):
         for src, size in (('path', 5), ('seekable', 5), ('nonseekable', 5), ('path', 3), ('nonseekable', 3), ('seekable', 3)):
             for brs in (None, 1, 2):
                 for thr in (None, 2):
-                    s = inline(scn([T_up(src, size, start=1 if src == 'seekable' else 0)], seed=seed, rcc=rcc,
+                    s = inline(scn([T_up(src, size, start=1 if src == 'seekable' else 0)], seed=seed, rcc=rcc.split('/')[0],
                                    body_read_size=brs, faults={'sites': ['body:retry'], 'max_body_retries': 2},
                                    progress_threshold=thr))
+                    if rcc.endswith('/http'):
+                        s['endpoint'] = 'http'
                     jobs.append(job(f'upload rewinds {src} {size} {rcc} read={brs} thr={thr}', s,
                                     2 if tier == 'quick' else 3, want, max_execs=200000))
     for dst in ('path', 'seekable', 'nonseekable'):
@@ -556,6 +560,10 @@ def jobs_C12(tier, seed):
     for name in ('up-mp-nonseekable', 'dl-ranged-nonseekable', 'dl-single-nonseekable', 'up-mp-seekable'):
         s = scn(copy.deepcopy(bt[name]), cfg(max_request_concurrency=2), seed=seed)
         jobs.append(job(f'e2e {name}', s, BD(tier)['PLAIN'], want, max_execs=100000))
+        # the acquire/release pairing lives in done-callbacks of executor futures: every point,
+        # including done()/add_done_callback of those futures, is a preemption point here
+        s = scn(copy.deepcopy(bt[name]), cfg(max_request_concurrency=2), seed=seed, granularity='fine')
+        jobs.append(job(f'e2e fine {name}', s, {'sched': 1}, want, max_execs=200000))
         s = scn(copy.deepcopy(bt[name]), cfg(max_request_concurrency=2), seed=seed,
                 faults={'sites': ['s3:', 'stream:fatal', 'stream:retryable', 'src:read', 'sink:write']})
         jobs.append(job(f'e2e fault {name}', s, BD(tier)['FAULT'], want, max_execs=100000))
@@ -581,6 +589,13 @@ def jobs_C13(tier, seed):
         s['objects'] = dict(ob)
         jobs.append(job(f'wiring {name}', s, {'sched': 0} if tier == 'quick' else {'sched': 1}, want,
                         forced_cost=1, max_execs=20000))
+    # every body protocol of the client (checksum pass inside / before request creation, none)
+    for rcc, ep in (('when_required', None), ('when_supported', None), ('when_supported', 'http')):
+        for trs, c in (([T_up('path', 40)], C), ([T_up('nonseekable', 40)], C2), ([T_up('seekable', 40)], C2)):
+            s = scn(copy.deepcopy(trs), dict(c), seed=seed, bw_threshold=2, body_read_size=2, horizon=100000, rcc=rcc)
+            if ep:
+                s['endpoint'] = ep
+            jobs.append(job(f'wiring upload {trs[0]["src"]} {rcc} {ep or "https"}', s, {'sched': 0}, want, forced_cost=1, max_execs=20000))
     # cancel / failure while reads are being throttled
     for name, trs, c in (('upload', [T_up('path', 40)], C), ('ranged download', [T_dl('path', 'b40')], C2)):
         s = scn(copy.deepcopy(trs), dict(c), seed=seed, bw_threshold=2, body_read_size=2, horizon=100000,
